@@ -61,6 +61,15 @@ pub enum Op {
 pub struct Case {
 	pub max_pool: u8,
 	pub ops: Vec<Op>,
+	/// false: the chain runs under SKIP_POW with free per-block difficulty, and a Fork's blocks carry a lot of
+	/// work each — a fork can then win while being SHORTER than what it replaces, so the height of "the next
+	/// block" goes down (with real proofs of work every reorganisation lengthens the chain)
+	#[serde(default = "yes")]
+	pub real: bool,
+}
+
+fn yes() -> bool {
+	true
 }
 
 fn submit() -> impl Strategy<Value = Submit> {
@@ -93,7 +102,8 @@ pub fn case_strategy(max_ops: usize) -> impl Strategy<Value = Case> {
 			4..=max_ops,
 		),
 	)
-		.prop_map(|(max_pool, ops)| Case { max_pool, ops })
+		.prop_map(|(max_pool, ops)| Case { max_pool, ops, real: true })
+		.prop_flat_map(|c| prop::bool::weighted(0.7).prop_map(move |real| Case { real, ..c.clone() }))
 }
 
 const FEE_BASE: u64 = 1000;
@@ -102,6 +112,7 @@ struct Env {
 	cb: ChainBox,
 	w: World,
 	head: usize,
+	pm: PowMode,
 	pool: Pool,
 	/// OutRefs of outputs created by transactions we submitted (to know their keys)
 	known_specs: Vec<TxSpec>,
@@ -276,6 +287,31 @@ fn invariant(env: &Env, when: &str) -> PResult {
 			global::get_accept_fee_base()
 		);
 		ensure!(tx.weight() <= global::max_tx_weight(), "pooled-tx-over-weight", "{}: pooled transaction weight {} over the limit", when, tx.weight());
+		// "can be applied on top of the current head" includes the rules that depend on the height of the
+		// next block: a reorganisation onto a shorter chain with more work lowers that height
+		let next = model.height + 1;
+		ensure!(
+			tx.lock_height() <= next,
+			"pooled-tx-premature:lock-height",
+			"{}: a pooled transaction is locked until height {} but the next block is {} (it cannot be part of a block on the head)",
+			when,
+			tx.lock_height(),
+			next
+		);
+		let ins: Vec<grin_core::core::CommitWrapper> = tx.inputs().into();
+		for i in ins {
+			if let Some(e) = model.utxo.get(&i.commitment().0.to_vec()) {
+				ensure!(
+					!e.features.is_coinbase() || e.height + global::coinbase_maturity() <= next,
+					"pooled-tx-premature:coinbase-maturity",
+					"{}: a pooled transaction spends the coinbase of height {} which matures at {} but the next block is {}",
+					when,
+					e.height,
+					e.height + global::coinbase_maturity(),
+					next
+				);
+			}
+		}
 	}
 	for (name, set) in [("txpool", txs.clone()), ("txpool+stempool", { let mut v = txs.clone(); v.extend(stem.clone()); v })] {
 		if set.is_empty() {
@@ -317,7 +353,7 @@ fn invariant(env: &Env, when: &str) -> PResult {
 
 fn connect(env: &mut Env, block: grin_core::core::Block, parent: usize, model: Model, spent_hint: Vec<OutRef>) -> Result<bool, Fail> {
 	let prev_head = env.head;
-	let res = env.cb.c().process_block(block.clone(), opts(PowMode::Real));
+	let res = env.cb.c().process_block(block.clone(), opts(env.pm));
 	match res {
 		Ok(tip) => {
 			let built = Built {
@@ -349,12 +385,14 @@ pub fn run_case(ctx: &Ctx, case: &Case, counting: bool) -> PResult {
 	global::set_local_accept_fee_base(FEE_BASE);
 	let ev = &ctx.ev;
 	let cb = ChainBox::open(&ctx.scratch_dir("c14")).map_err(|e| Fail::new("init-fresh", e))?;
-	let w = World::new(&cb.genesis, true);
+	let w = World::new(&cb.genesis, case.real);
+	let pm = if case.real { PowMode::Real } else { PowMode::Skip(1) };
 	let pool = new_pool(cb.arc(), FEE_BASE, case.max_pool as usize, case.max_pool as usize, global::max_block_weight());
 	let mut env = Env {
 		cb,
 		w,
 		head: 0,
+		pm,
 		pool,
 		known_specs: vec![],
 		next_key: 0,
@@ -613,7 +651,7 @@ pub fn run_case(ctx: &Ctx, case: &Case, counting: bool) -> PResult {
 				let fees: u64 = chosen.iter().map(|t| t.fee()).sum();
 				let (cbref, _, _) = LIB.coinbase(fees, cbkey);
 				env.w.note(&cbref);
-				let b = make_block(env.cb.c(), &prev, &chosen, cbkey, *dt as i64, PowMode::Real).map_err(|e| Fail::new("builder", format!("op {}: {}", i, e)))?;
+				let b = make_block(env.cb.c(), &prev, &chosen, cbkey, *dt as i64, env.pm).map_err(|e| Fail::new("builder", format!("op {}: {}", i, e)))?;
 				let m = model.apply(&b).map_err(|e| Fail::new("harness:model", format!("op {}: block of pool txs invalid in model: {:?}", i, e)))?;
 				if !chosen.is_empty() && env.pool.total_size() > chosen.len() {
 					confirmed_part = true;
@@ -628,7 +666,7 @@ pub fn run_case(ctx: &Ctx, case: &Case, counting: bool) -> PResult {
 				let fees: u64 = txs.iter().map(|t| t.fee()).sum();
 				let (cbref, _, _) = LIB.coinbase(fees, cbkey);
 				env.w.note(&cbref);
-				let b = make_block(env.cb.c(), &prev, &txs, cbkey, 60, PowMode::Real).map_err(|e| Fail::new("mineable-set-not-assemblable", format!("op {}: the mineable set does not assemble into a block: {}", i, e)))?;
+				let b = make_block(env.cb.c(), &prev, &txs, cbkey, 60, env.pm).map_err(|e| Fail::new("mineable-set-not-assemblable", format!("op {}: the mineable set does not assemble into a block: {}", i, e)))?;
 				let wgt = b.body.weight();
 				ensure!(wgt <= global::max_block_weight(), "mineable-set-over-weight", "op {}: block from the mineable set weighs {} > {}", i, wgt, global::max_block_weight());
 				let model = env.w.nodes[env.head].model.clone();
@@ -696,14 +734,14 @@ pub fn run_case(ctx: &Ctx, case: &Case, counting: bool) -> PResult {
 					let cbkey = (parent_hdr.height as u32 + 1) * 4 + 3;
 					let (cbref, _, _) = LIB.coinbase(0, cbkey);
 					env.w.note(&cbref);
-					let b = match make_block(env.cb.c(), &parent_hdr, &[], cbkey, 45 + k as i64, PowMode::Real) {
+					let b = match make_block(env.cb.c(), &parent_hdr, &[], cbkey, 45 + k as i64, env.pm) {
 						Ok(b) => b,
 						// the builder can only root a block on a parent whose body the chain has
 						Err(_) => break,
 					};
 					env.cb
 						.c()
-						.process_block_header(&b.header, opts(PowMode::Real))
+						.process_block_header(&b.header, opts(env.pm))
 						.map_err(|e| Fail::new("valid-header-rejected", format!("op {}: header {} above the head refused: {}", i, k + 1, err_name(&e))))?;
 					if counting {
 						ev.class("headers_delivered_ahead_of_bodies");
@@ -721,7 +759,7 @@ pub fn run_case(ctx: &Ctx, case: &Case, counting: bool) -> PResult {
 						cb_key: 2,
 						txs: vec![],
 						dt: 30,
-						diff: 1,
+						diff: 900,
 						neg: Neg::None,
 						neg_pick: 0,
 			hdr: 0,
@@ -735,11 +773,18 @@ pub fn run_case(ctx: &Ctx, case: &Case, counting: bool) -> PResult {
 						break; // the same fork block was already delivered by an earlier Fork op
 					}
 					let was = env.head;
+					let was_h = env.w.nodes[was].height();
 					if connect(&mut env, built.block.clone(), built.parent, m, vec![])? && built.parent != was {
 						reorged = true;
+						if counting && env.w.nodes[env.head].height() < was_h {
+							ev.class("reorgs_onto_a_shorter_chain_with_more_work");
+						}
 					}
 				}
 			}
+		}
+		if std::env::var("GV_DEBUG").is_ok() {
+			eprintln!("op {} {:?}: head h={} txpool={} stempool={}", i, op, env.w.nodes[env.head].height(), env.pool.txpool.size(), env.pool.stempool.size());
 		}
 		invariant(&env, &format!("after op {} ({})", i, match op {
 			Op::Submit(..) => "submit",
